@@ -48,6 +48,6 @@ pub assume_specification<T, E>[Result::<T, E>::unwrap_or](o: Result<T, E>, defau
 pub assume_specification<T, E, F: FnOnce(E) -> T>[Result::<T, E>::unwrap_or_else](o: Result<T, E>, f: F) -> (r: T)
     requires o is Err ==> f.requires((o->Err_0,))
     ensures o is Ok ==> r == o->Ok_0, o is Err ==> f.ensures((o->Err_0,), r);
-// ---- end prelude std_combinators
 pub assume_specification<'a, T: Copy>[Option::<&'a T>::copied](o: Option<&'a T>) -> (r: Option<T>)
-    ensures r is Some == o is Some, o is Some ==> r->Some_0 == *o->Some_0;
+    ensures r == (match o { Some(x) => Some(*x), None => None::<T> });
+// ---- end prelude std_combinators
